@@ -150,6 +150,17 @@ def fam_shared_locals(k, L):
     return build_lscr_raw(body, frb, frb, k, frb, 0, end, end)
 
 
+def fam_shared_table(k, L, which):
+    """as fam_shared_locals for each of the three name tables of a handler record: parameters, locals, handler-level globals
+    (seeded change C10-m19: one of the three was no longer counted against the file size)"""
+    tbl = struct.pack(">h", 1) * L
+    frb = 92 + len(tbl)
+    rec = {"args": _frec(0, 0, 92, L, 92, 0, 92, 0, 92), "locals": _frec(0, 0, 92, 0, 92, L, 92, 0, 92), "globs": _frec(0, 0, 92, 0, 92, 0, 92, L, 92)}[which]
+    body = tbl + rec * k
+    end = 92 + len(body)
+    return build_lscr_raw(body, frb, frb, k, frb, 0, end, end)
+
+
 def fam_shared_locals_cancel(k, L, which="args"):
     """as fam_shared_locals, but every record also carries a NEGATIVE count in another field (parameters or handler globals) of the
     same magnitude: a guard that sums the counts before clamping sees 0 declared bytes (seeded change C10-m17)"""
